@@ -789,6 +789,9 @@ class World(object):
             return functools.partial(base, "bound-arg", pk="pv")
         if kind == "obj":
             return CallableObj(base)
+        if kind == "falsy":
+            # a callable OBJECT that is falsy (an empty pipeline with __len__() == 0, a flag object with a false __bool__)
+            return FalsyCallableObj(base)
         if kind == "bound":
             # a callable that is itself bound to another (synchronous) executor
             return Executors.sync(name="inner").bind(base)
@@ -1282,6 +1285,13 @@ class CallableObj(object):
     def __call__(self, *args, **kwargs):
         self.calls += 1
         return self._fn(*args, **kwargs)
+
+
+class FalsyCallableObj(CallableObj):
+    """A callable object whose truth value is False (think of a callable pipeline object with no stages: len() == 0)."""
+
+    def __len__(self):
+        return 0
 
 
 class CallbackRec(object):
